@@ -31,7 +31,7 @@ def cfg_id(std, ic=True, pd=False, omp=False, extra=""):
 
 
 # ------------------------------------------------------------------ python twin of the laws
-def _law(ev, parse_of, print_of, toks_of, copy_of):
+def _law(ev, parse_of, print_of, toks_of, copy_of, obs_of):
     law = ev["law"]
 
     def P(s, c):
@@ -133,6 +133,27 @@ def _law(ev, parse_of, print_of, toks_of, copy_of):
         if not k["indep"]:
             return "copy-not-independent"
         return ""
+    if law == "obseq":
+        if p is None:
+            return "missing-parse"
+        if p["res"] != "ok":
+            return "not-accepted"
+        k = (p["tree"], ev["key"])
+        if k not in obs_of:
+            return "missing-observation"
+        return "" if obs_of[k] == ev["val"] else "observation-differs"
+    if law == "obssame":
+        q = P(ev["src2"], ev["cfg2"])
+        if p is None or q is None:
+            return "missing-parse"
+        if q["res"] != "ok":
+            return "reference-not-accepted"
+        if p["res"] != "ok":
+            return "variant-not-accepted"
+        k = (p["tree"], ev["key"])
+        if k not in obs_of:
+            return "missing-observation"
+        return "" if obs_of[k] == q["st"] else "tree-differs"
     return "unknown-law"
 
 
@@ -140,13 +161,13 @@ def evaluate(events):
     """Python twin of Session.tla: list of (tid, event index (1-based), clause)."""
     rej = []
     tid = 0
-    parse_of, print_of, toks_of, copy_of = {}, {}, {}, {}
+    parse_of, print_of, toks_of, copy_of, obs_of = {}, {}, {}, {}, {}
     nclaims = 0
     for i, ev in enumerate(events, 1):
         e = ev["e"]
         if e == "begin":
             tid = ev["t"]
-            parse_of, print_of, toks_of, copy_of = {}, {}, {}, {}
+            parse_of, print_of, toks_of, copy_of, obs_of = {}, {}, {}, {}, {}
         elif e == "parse":
             key = (ev["src"], ev["cfg"])
             o = {k: ev[k] for k in ("res", "tree", "st", "sci", "line", "q")}
@@ -165,9 +186,11 @@ def evaluate(events):
             toks_of[ev["text"]] = ev["tk"]
         elif e == "copy":
             copy_of[(ev["tree"], ev["how"])] = {k: ev[k] for k in ("ok", "st", "text", "disjoint", "indep", "wf")}
+        elif e == "obs":
+            obs_of[(ev["tree"], ev["key"])] = ev["val"]
         elif e == "claim":
             nclaims += 1
-            c = _law(ev, parse_of, print_of, toks_of, copy_of)
+            c = _law(ev, parse_of, print_of, toks_of, copy_of, obs_of)
             if c:
                 rej.append((tid, i, c))
         else:
